@@ -655,6 +655,14 @@ impl BuildTargetPlatform {
     }
 }
 
+/// Verification hook: every processor the platform enumerated, including inactive ones.
+#[cfg(folo_verif)]
+impl BuildTargetPlatform {
+    pub(crate) fn verif_all_processors(&self) -> &NonEmpty<ProcessorImpl> {
+        self.get_all_processors_impl()
+    }
+}
+
 // One result from /proc/cpuinfo.
 #[derive(Clone, Debug)]
 struct CpuInfo {
